@@ -93,8 +93,14 @@ def impl_run(case):
     q = np.array(case["query"], dtype=np.double)
     cands = [np.array(s, dtype=np.double) for s in case["cands"]]
     opts = {k: v for k, v in case["settings"].items() if v is not None and k in ("window", "penalty")}
-    ss = SubsequenceSearch(q, cands, dists_options=opts, use_lb=case["use_lb"], max_dist=case["max_dist"],
-                           max_value=case["max_value"], use_c=case["use_c"])
+    if len(cands) % 2 == 0:
+        # the documented entry point
+        from dtaidistance.subsequence.subsequencesearch import subsequence_search
+        ss = subsequence_search(q, cands, dists_options=opts, use_lb=case["use_lb"], max_dist=case["max_dist"],
+                                max_value=case["max_value"], use_c=case["use_c"])
+    else:
+        ss = SubsequenceSearch(q, cands, dists_options=opts, use_lb=case["use_lb"], max_dist=case["max_dist"],
+                               max_value=case["max_value"], use_c=case["use_c"])
     res = []
     for op, k in case["ops"]:
         if op == "kbest":
